@@ -331,7 +331,28 @@ def _no_other_set_iteration(mi, fn):
     return [("post", "set-iteration-only-at-verified-sites", [], z3.BoolVal(True))]
 
 
-contract(f"{U}.ScaffoldNamer.__init__", properties=("C17",), custom=staticmethod(_no_other_set_iteration))(type("_", (), {}))
+@contract(f"{U}.ScaffoldNamer.__init__", kind="init", properties=("C17", "C10"))
+class _:
+    # "named <prefix>1..<prefix>n", "H_1..", "_unloc_1..": a namer starts with the prefix it is given, both counters at
+    # zero (the first name handed out carries 1), nothing remembered, no Target tag seen; plus the C17 site check
+    custom = staticmethod(_no_other_set_iteration)
+    also_verify = True
+    params = {"self": SN, "autosome_prefix": STR}
+    defaults = {"autosome_prefix": "SUPER_"}
+    modifies = staticmethod(lambda o: [("field", "ScaffoldNamer", f, o.self) for f in (
+        "autosome_prefix", "current_scaffold_name", "current_rank", "current_haplotype", "haplotig_n", "unloc_n", "target_tags",
+        "primary_haplotype", "haplotig_scaffolds", "unloc_scaffolds", "haplotype_lc_dict")] + [("fresh-lists", TRef("Scaffold")), ("alloc",)])
+    ensures = staticmethod(lambda o, n, res: [
+        ("prefix", n.self.autosome_prefix == o.autosome_prefix),
+        ("counters-start-at-zero", z3.And(n.self.haplotig_n == 0, n.self.unloc_n == 0)),
+        ("nothing-remembered", z3.And(n.self.haplotig_scaffolds.len == 0, n.self.unloc_scaffolds.len == 0,
+                                      n.self.current_scaffold_name.is_none, n.self.current_rank.is_none, n.self.current_haplotype.is_none,
+                                      n.self.primary_haplotype.is_none)),
+        ("no-target-tag-seen", z3.Not(n.self.target_tags)),
+        ("two-different-new-lists", z3.And(n.self.haplotig_scaffolds.z != n.self.unloc_scaffolds.z,
+                                            n.self.haplotig_scaffolds.z >= o.alloc, n.self.unloc_scaffolds.z >= o.alloc)),
+        ("alloc-grows", n.alloc >= o.alloc),
+    ])
 
 
 # --- C10: "unlocs / haplotigs ... numbered so that numbers follow non-increasing length" ---------------------------------
@@ -344,6 +365,15 @@ def _length_of(st, ref):
     sc = ObjView(st, ref, "Scaffold")
     orr = ObjView(st, ref, "OverlapResult")
     return z3.If(class_map(st)[ref] == CLASSES["OverlapResult"]["id"], orr.end - orr.start + 1, sc.rows.cum(sc.rows.len))
+
+
+def _renamed_only(st0, st1, lst, upto):
+    """every object whose Scaffold.name differs between the two states stands in lst[0:upto]"""
+    from pyvc.spec import field_map
+
+    nm0, nm1 = field_map(st0, "Scaffold", "name")[1], field_map(st1, "Scaffold", "name")[1]
+    r, k = z3.Int("r!ren"), z3.Int("k!ren")
+    return z3.ForAll([r], z3.Implies(nm1[r] != nm0[r], z3.Exists([k], z3.And(0 <= k, k < upto, lst[k].z == r))), patterns=[nm1[r]])
 
 
 @contract(f"{U}.ScaffoldNamer.rename_by_size", properties=("C10",))
@@ -379,6 +409,8 @@ class _:
             ("same-scaffolds", bs.len == scs.len),
             ("ranked-by-size", forall2(lambda a, b: z3.Implies(z3.And(0 <= a, a < b, b < bs.len), _length_of(st0, bs[a].z) >= _length_of(st0, bs[b].z)))),
             ("k-th-name-to-the-k-th-longest", forall(lambda k: z3.Implies(z3.And(0 <= k, k < bs.len), bs[k].name == scs[k].name))),
+            # "changes nothing but [these] names": a scaffold whose name differs afterwards is one of the list
+            ("others-keep-their-names", _renamed_only(o.state, n.state, scs, scs.len)),
         ]
 
     loops = {
@@ -389,7 +421,29 @@ class _:
                 ("lists", z3.And(bs.z == e.by_size.z, names.z == e.names.z, bs.arr == e.by_size.arr, names.arr == e.names.arr, bs.hi == e.by_size.hi, names.hi == e.names.hi,
                                  bs.lo == 0, names.lo == 0)),
                 ("renamed-so-far", forall(lambda k: z3.Implies(z3.And(0 <= k, k < i), bs[k].name == names[k]))),
+                ("others-keep-their-names", _renamed_only(o.state, v.state, bs, i)),
             ])(v.by_size, v.names, v._it0),
             frame=lambda v, e: {"$free": ["H.Scaffold.name"]},
         )
     }
+
+
+def _rename_wrapper(method, field, what):
+    @contract(f"{U}.ScaffoldNamer.{method}", properties=("C10",))
+    class _:
+        # the size ranking is applied to the namer's own list of these scaffolds and renames nothing outside it
+        params = {"self": TRef("ScaffoldNamer")}
+        result = NONE
+
+        @staticmethod
+        def requires(o):
+            scs = getattr(o.self, field)
+            return [("objects", forall(lambda k: z3.Implies(z3.And(0 <= k, k < scs.len), z3.And(scs[k].z >= 1, scs[k].z < o.alloc)))),
+                    ("distinct", forall2(lambda a, b: z3.Implies(z3.And(0 <= a, a < b, b < scs.len), scs[a].z != scs[b].z)))]
+
+        modifies = staticmethod(lambda o: [("map", "H.Scaffold.name"), ("fresh-lists", STR), ("fresh-lists", TRef("Scaffold")), ("alloc",)])
+        ensures = staticmethod(lambda o, n, res: [(f"only-{what}-renamed", _renamed_only(o.state, n.state, getattr(o.self, field), getattr(o.self, field).len))])
+
+
+_rename_wrapper("rename_haplotigs_by_size", "haplotig_scaffolds", "haplotigs")
+_rename_wrapper("rename_unlocs_by_size", "unloc_scaffolds", "unlocs")
